@@ -9,7 +9,7 @@
    implementation and by byte-exact correspondence of the session model, not by a theorem (DESIGN.md, C01). *)
 From Coq Require Import ZArith List Bool.
 From Coq Require String.
-Require Import PyLib SuiteTypes Crypto KeySchedule Packet Reassembly Decryptor TlsSession TlsRecords C01P Hs13P C01SessionP C01Session12P C01SessionLegacyP HelloP Fresh12P.
+Require Import PyLib SuiteTypes Crypto KeySchedule Packet Reassembly Decryptor TlsSession TlsRecords C01P Hs13P C01SessionP C01Session12P C01SessionLegacyP HelloP Fresh12P PlainHsP.
 Import ListNotations.
 Open Scope Z_scope.
 
@@ -291,3 +291,44 @@ Print Assumptions C01_fresh12_chacha.
 Print Assumptions C01_fresh12_rc4.
 Print Assumptions C01_fresh12_cbc_explicit.
 Print Assumptions C01_fresh12_cbc_chained.
+
+(* ---------------- the plaintext handshake, grouped or fragmented into records in any way ---------------- *)
+(* One plaintext handshake record before any ChangeCipherSpec: the session's bookkeeping for the record's direction -- bytes of a
+   fragmented message still to come, or the bytes of a cut message header -- moves by hs_step; the other direction's stays; and the
+   record is taken for a message (ClientHello for a first byte 1, ServerHello for 2) exactly when that state was (0, []). *)
+Theorem C01_plain_handshake_record : forall C tbl parts keylog s r srv t x' s' out, ts_server_cc s || ts_client_cc s = false -> r_body r = t :: x' ->
+  handle_tls_handshake_record C tbl parts keylog s r srv = Ok (s', out) ->
+  hsst srv s' = hs_step (hsst srv s) (r_body r) /\ hsst (negb srv) s' = hsst (negb srv) s /\
+  let s1 := set_pending s srv (fst (hs_step (hsst srv s) (r_body r))) (snd (hs_step (hsst srv s) (r_body r))) in
+  ((0 <? fst (hsst srv s)) || (0 <? len (snd (hsst srv s))) = true -> s' = s1 /\ out = []) /\
+  ((0 <? fst (hsst srv s)) || (0 <? len (snd (hsst srv s))) = false ->
+     (t = 1 -> s' = handle_tls_client_hello s1 r) /\ (t = 2 -> handle_tls_server_hello C tbl parts keylog s1 r = Ok s') /\
+     (t <> 1 -> t <> 2 -> (s', out) = handle_handshake_finished C s1 r srv)).
+Proof. exact plain_record. Qed.
+Print Assumptions C01_plain_handshake_record.
+
+(* A flight of well-formed handshake messages cut into records AT ANY BYTES (RFC 5246 6.2.1: grouped or fragmented, a message header
+   itself may be cut): the state before each record is stf ms (its offset in the flight) -- a function of the offset alone, whatever the
+   earlier cuts were -- and after the flight it is (0, []) again. *)
+Theorem C01_plain_handshake_flight : forall ms ps, Forall wfm ms -> concat ps = stream ms ->
+  run_flight (0, []) ps = map (stf ms) (offsets 0 ps) /\ fold_left hs_step ps (0, []) = (0, []).
+Proof. exact whole_flight. Qed.
+Print Assumptions C01_plain_handshake_flight.
+
+(* ... and that state is (0, []) exactly at the message boundaries; the first byte of a record that begins there is the type of the
+   message that begins there.  Hence: a record is read as a ClientHello / ServerHello iff it begins with one; no record that continues
+   a fragmented message is (defects 101e670, d053156). *)
+Theorem C01_plain_handshake_dispatch : forall ms E, (E <= length (stream ms))%nat ->
+  (stf ms E = (0, []) <-> boundary ms E = true) /\
+  (forall t x R', boundary ms E = true -> skipn E (stream ms) = (t :: x) ++ R' -> type_at ms E = Some t).
+Proof. intros ms E HE. exact (conj (stf_boundary ms E HE) (fun t x R' => first_byte_at ms E t x R')). Qed.
+Print Assumptions C01_plain_handshake_dispatch.
+
+(* non-vacuity: ServerHello (3 bytes of body here), a Certificate whose body starts with the bytes 2 and 1, ServerHelloDone -- cut inside
+   the Certificate's header, inside its body right before the 2, and at a message boundary *)
+Example C01_plain_handshake_example :
+  let ms := [(2, [7; 7; 7]); (11, [9; 2; 1; 5; 5]); (14, [])] in
+  let ps := [[2; 0; 0; 3; 7; 7; 7; 11; 0]; [0; 5; 9]; [2; 1; 5; 5]; [14; 0; 0; 0]] in
+  concat ps = stream ms /\ run_flight (0, []) ps = [(0, []); (0, [11; 0]); (4, []); (0, [])] /\
+  map (boundary ms) (offsets 0 ps) = [true; false; false; true] /\ map (type_at ms) (offsets 0 ps) = [Some 2; None; None; Some 14].
+Proof. vm_compute. repeat split; reflexivity. Qed.
